@@ -596,6 +596,9 @@ fn exec_tamper(seed: u64) -> String {
         Err(e) => return format!("oracle-fail:untampered-read:{e}"),
     };
     let store = h.be.store();
+    // (pack id, variant) pairs whose modification no snapshot read touched: `check --read-data` must still notice them
+    let mut pack_unread: Vec<(Id, usize)> = Vec::new();
+    let mut pack_variants: std::collections::BTreeMap<(Id, usize), Vec<u8>> = std::collections::BTreeMap::new();
     for ((t, id), bytes) in &store {
         let tpe = repo::FILE_TYPES[*t as usize];
         if tpe == FileType::Key {
@@ -621,6 +624,9 @@ fn exec_tamper(seed: u64) -> String {
             if std::env::var("C04_DEBUG").is_ok() {
                 eprintln!("variant {vi} of {} (len {} -> {})", repo::ft_name(tpe), n, v.len());
             }
+            if tpe == FileType::Pack {
+                _ = pack_variants.insert((*id, vi), v.clone());
+            }
             h.be.put_raw(tpe, *id, Bytes::from(v));
             let res = read_everything(&h, &snaps);
             h.be.put_raw(tpe, *id, bytes.clone());
@@ -638,11 +644,53 @@ fn exec_tamper(seed: u64) -> String {
                     if tpe != FileType::Pack {
                         return format!("oracle-fail:tampered-{}-accepted", repo::ft_name(tpe));
                     }
+                    pack_unread.push((*id, vi));
                 }
             }
         }
     }
+    // a sample of the pack modifications that reads did not notice: the full check must — for DATA packs (packs that hold
+    // only root trees are never read by `check`, DESIGN §7 #11, a C05 matter)
+    let mut data_packs: BTreeSet<Id> = BTreeSet::new();
+    {
+        let repo = match h.open_nocache() {
+            Ok(r) => r,
+            Err(e) => return errkind(&e),
+        };
+        let dbe = rustic_core::verif::repository::dbe(&repo);
+        for id in h.be.ids(FileType::Index) {
+            if let Ok(f) = dbe.get_file::<IndexFile>(&rustic_core::repofile::IndexId::from(id)) {
+                for p in &f.packs {
+                    if p.blob_type() == rustic_core::repofile::BlobType::Data {
+                        _ = data_packs.insert(Id::from(*p.id));
+                    }
+                }
+            }
+        }
+    }
+    pack_unread.retain(|(id, _)| data_packs.contains(id));
+    for (k, (id, vi)) in pack_unread.iter().enumerate() {
+        if k % 3 != 0 && pack_unread.len() > 12 {
+            continue;
+        }
+        let orig = store[&(repo::ft_idx(FileType::Pack), *id)].clone();
+        h.be.put_raw(FileType::Pack, *id, Bytes::from(pack_variants[&(*id, *vi)].clone()));
+        let res = repo::check_errors_nocache(&h, true);
+        h.be.put_raw(FileType::Pack, *id, orig);
+        if res == Some(0) {
+            if std::env::var("C04_DEBUG").is_ok() {
+                let v = &pack_variants[&(*id, *vi)];
+                let firstdiff = orig_len_diff(&store[&(repo::ft_idx(FileType::Pack), *id)], v);
+                eprintln!("unnoticed: pack {} variant {vi} len {} -> {} first diff at {:?}", id.to_hex().as_str(), store[&(repo::ft_idx(FileType::Pack), *id)].len(), v.len(), firstdiff);
+            }
+            return "oracle-fail:tampered-pack-unnoticed-by-check".into();
+        }
+    }
     "ok".into()
+}
+
+fn orig_len_diff(a: &[u8], b: &[u8]) -> Option<usize> {
+    a.iter().zip(b.iter()).position(|(x, y)| x != y)
 }
 
 fn exec_swap(seed: u64) -> String {
